@@ -98,9 +98,14 @@ package router
 //@ func ctxDone(ctx context.Context) (done bool)
 //@   trusted
 //@   modifies nothing
+// needPrefetch: true exactly when less than a quarter of the entry's lifetime remains (time.Until read once)
 //@ func needPrefetch(storedTime time.Time, expireTime time.Time) (need bool)
-//@   trusted
+//@   props C19
+//@   ghost gLeft time.Duration = 0
+//@   aftercall Until: gLeft = ret0
 //@   modifies nothing
+//@   ensures [C19:last-quarter-of-the-lifetime] need == (4 * int(gLeft) + 3 < tns(expireTime) - tns(storedTime)) -- i.e. left < floor(lifetime / 4)
+//@   callsite Until: [C19:time-left-of-this-entry] arg0 == expireTime
 //@ func (r *router) limiterAllowN(addr netip.Addr, n int) (err error)
 //@   trusted
 //@   modifies nothing
